@@ -680,3 +680,47 @@ def one_creator_used_for_two_blocks_gives_each_block_its_own_constants(
             assert eq(m.removal[g], n * sum([base[r][g] for r in VEC]) - n * base["n2n"][g] + out), "removal of this block alone"
             for h in range(ng):
                 assert eq(m["elasticScatter"].a[g][h], n * sc["elasticScatter"][g][h])
+
+
+# ----------------------------------------------------------------------------- widened hypotheses (assumption review)
+@lemma(gen={"ng": (1, 2), "z": (0, 2), "n1": (1e-4, 0.1), "n2": (1e-4, 0.1), "s": (-5.0, 5.0), "tr1": (0.1, 20.0), "tr2": (0.1, 20.0)},
+       overrides={"armi.nuclearDataIO.xsCollections:sparse": "DenseSparse"})
+def creator_with_zero_density_nuclides_and_any_data_scale(
+        ng: int, z: int, n1: float, n2: float, s: float,
+        g1: float, g2: float, al1: float, al2: float, p1: float, p2: float, d1: float, d2: float, t1: float, t2: float,
+        f1: float, f2: float, w1: float, w2: float, nu1: float, nu2: float, tr1: float, tr2: float,
+        e11: float, e12: float, e21: float, e22: float, i11: float, i12: float, i21: float, i22: float,
+        m11: float, m12: float, m21: float, m22: float):
+    """creator_builds_weighted_sums_and_derived_quantities assumes every density > 0 and a data scale s > 0.  A block
+    routinely lists nuclides of density ZERO (z = 1: A is zero, z = 2: B is zero, z = 0: none; a block where all are zero
+    is the known empty-composition finding), and the second nuclide's data may be any multiple of the first's (s = 0,
+    s < 0).  Hypotheses kept: (P) densities >= 0 - createMacrosFromMicros documents that it only uses densities above
+    minimumNuclideDensity (default 0), so a negative 'density' is outside its domain; (S) the macroscopic transport
+    cross section is non-zero, so that the diffusion constant 1 / (3 transport) exists."""
+    ng = choose(ng, 1, 2)
+    z = choose(z, 0, 2)
+    assume(n1 > 0 and n2 > 0)
+    dens = [0.0 if z == 1 else n1, 0.0 if z == 2 else n2]
+    scale = [1.0, s]
+    w = dens[0] + dens[1] * s  # sum_i N_i x (scale of nuclide i)
+    assume(tr1 != 0 and tr2 != 0 and w != 0)
+    base = {"nGamma": [g1, g2], "nalph": [al1, al2], "np": [p1, p2], "nd": [d1, d2], "nt": [t1, t2], "fission": [f1, f2],
+            "n2n": [w1, w2], "neutronsPerFission": [nu1, nu2], "chi": [1.0, 0.0], "total": [tr1, tr2], "transport": [tr1, tr2]}
+    sc = {"elasticScatter": [[e11, e12], [e21, e22]], "inelasticScatter": [[i11, i12], [i21, i22]], "n2nScatter": [[m11, m12], [m21, m22]]}
+    lib = full_library(2, ng, base, scale, sc)
+    blk = new(Block, dens={NAMES[i]: dens[i] for i in range(2)})
+    m = Creator().createMacrosFromMicros(lib, blk)
+    w2s = dens[0] + dens[1] * s * s
+    for g in range(ng):
+        for r in VEC + ["total", "transport"]:
+            assert eq(m[r][g], w * base[r][g]), "vector reaction = density-weighted sum"
+        assert eq(m.nuSigF[g], w2s * base["fission"][g] * base["neutronsPerFission"][g]), "nu-fission = sum N nu sigma_f"
+        assert eq(m.absorption[g], w * sum([base[r][g] for r in VEC])), "absorption = capture + fission + n2n"
+        assert eq(m.diffusionConstants[g] * 3.0 * m.transport[g], 1.0)
+        for h in range(ng):
+            for name in ["elasticScatter", "inelasticScatter", "n2nScatter"]:
+                assert eq(m[name].a[g][h], w * sc[name][g][h]), "scatter matrix = density-weighted sum"
+            assert eq(m.totalScatter.a[g][h], w * (sc["elasticScatter"][g][h] + sc["inelasticScatter"][g][h] + 2.0 * sc["n2nScatter"][g][h]))
+        out = sum([m.totalScatter.a[h][g] for h in range(ng)]) - m.totalScatter.a[g][g]
+        assert eq(m.removal[g], m.absorption[g] - m.n2n[g] + out), "removal = absorption - n2n + out-scatter"
+    assert eq(blk.dens["A"], dens[0]) and eq(blk.dens["B"], dens[1]), "the composition is not changed"
